@@ -695,6 +695,8 @@ func (P *Program) modExprKeys(fn *ssa.Function, ct *Contract, e *Expr) []string 
 			return []string{ghClosed}
 		case "recvd":
 			return []string{ghRecvd}
+		case "cancelled":
+			return []string{ghCancelled}
 		case "written":
 			return []string{ghBuf}
 		case "content":
